@@ -211,3 +211,21 @@ def _describe(r) -> str:
     if r[0] == "stored":
         return f"the Atoms another object holds under `.{r[1]}` (stored without a copy)"
     return f"the caller-owned Atoms stored in self.{r[2]}"
+
+
+# ---- added after the seeded change C32-r3seed6: in-place FFTs never run on the receiver's own array
+_inner_run_c32 = run
+
+
+def run(ctx) -> None:  # noqa: F811
+    from . import c38
+
+    ctx.rule("R-OWN", "(the rule of C38, kept for the measurement classes) a measurement method that requests an "
+             "in-place FFT — a literal overwrite_x=True, directly or through functions that hand their parameter on, "
+             "including through astype(..., copy=False), which returns the array itself when the dtype matches — "
+             "passes an array that is fresh in the method, never the receiver's own `self.array`: otherwise "
+             "images.interpolate(...) leaves the receiver holding its Fourier transform")
+    from ..report import OnlyConstructs
+
+    c38._own(OnlyConstructs(ctx, ("abtem.measurements.",)), ctx.repo)
+    _inner_run_c32(ctx)
